@@ -369,6 +369,37 @@ def _seeds(stg, c, tmp, R):
     a1.x.add_noise(0, 1)
     a2.x.add_noise(0, 1)
     indep(a1.get_samples(n), a2.get_samples(n), 'antennas-with-different-seeds-share-noise')
+    # "all seeds": the edge values a seed can take -- 0 (falsy), numpy integers, the largest 32/63-bit values, a Generator --
+    # are seeds like any other: two identical builds give identical draws
+    edge = [0, np.int64(0), 1, 2 ** 31 - 1, 2 ** 32 - 1, 2 ** 63 - 1, np.uint32(7), c['seed']][c['seed'] % 8:][:3] + [0]
+    for sd in edge:
+        nm = f'{type(sd).__name__}:{int(sd)}'
+        R.bucket('edge-seed:' + ('zero' if int(sd) == 0 else 'other'))
+
+        def mk(kind):
+            if kind == 'antenna':
+                o = v.Antenna(sample_rate=1e6, num_pols=2, seed=sd)
+                o.x.add_noise(0, 1)
+                o.y.add_noise(0, 1)
+                return np.array(o.get_samples(256))
+            if kind == 'array':
+                o = v.MultiAntennaArray(num_antennas=2, sample_rate=1e6, num_pols=1, delays=[0, 2], seed=sd)
+                for an in o.antennas:
+                    an.x.add_noise(0, 1)
+                o.bg_x.add_noise(0, 1)
+                return np.array(o.get_samples(256))
+            if kind == 'stream':
+                o = v.DataStream(sample_rate=1e6, seed=sd)
+                o.add_noise(0, 1)
+                return np.array(o.get_samples(256))
+            if kind == 'frame':
+                o = stg.Frame(fchans=32, tchans=8, seed=sd)
+                return np.array(o.add_noise(5.0))
+            fb = v.PolyphaseFilterbank(num_taps=2, num_branches=8)
+            with common.quiet():
+                return np.array(fb.estimate_channelized_stds(factor=50, seed=sd))
+        for kind in ('antenna', 'array', 'stream', 'frame', 'chanstd'):
+            R.check(np.array_equal(mk(kind), mk(kind)), 'same-seed-different-draws:' + kind + (':seed-zero' if int(sd) == 0 else ''), seed=nm)
     R.mark_nontrivial(True)
 
 
